@@ -71,53 +71,89 @@ THEOREMS = [
 ]
 LEVEL_TEXT = ("Lean theorems about code translated from the source on every run: to_qsw/to_tnw (local.py) are proper rotations (M M^T = 1, det = 1) with rows "
               "(r^ | v^, w^ x first, w^) for every state with r x v != 0; a QSW/TNW/inertial maneuver vector is projected with exactly its magnitude and "
-              "components; the orbit-attached frame puts its orbit at the origin and round-trips; over integer microseconds, for every partition of a span "
+              "components, every spelling the constructors accept for a local frame selecting that frame's matrix (name tables regenerated from the constructors, "
+              "the `in (...)` tests, to_local and orbit2frame); the orbit-attached frame puts its orbit at the origin and round-trips, no operation of a session writes "
+              "to the reference object and repeated conversions read the same; over integer microseconds, for every partition of a span "
               "into positive steps (fixed or adaptive) ImpulsiveMan.check fires in exactly one step, the one containing the date (delay < that step), for each "
-              "of several maneuvers independently; ContinuousMan.check is start <= t < stop; dkep2dv (man.py) yields, for every input, the "
-              "velocity v_final rotated by dangle (law of cosines), and realises da to first order (HasDerivAt = 1); dkep2aol splits the plane change as requested. "
-              "Projection, attached frame and step loop are hand-modelled and tied by differential correspondence with the real classes and KeplerNum.")
-LEVEL_NOTE = ("proof (partial): 'a continuous burn delivers its full delta-v' is false of the code for burns not aligned with the steps (known finding, kernel-checked "
-              "witnesses) and its quadrature is oracle-only; first-order realisation of (di, dOmega) is proved only up to the velocity geometry (triangle + "
-              "dkep2aol split), the Gauss-equation step is oracle-only; "
+              "of several maneuvers independently; ContinuousMan.check is start <= t < stop and the step loop, with the Butcher nodes/weights regenerated and stage dates "
+              "rounded as Python rounds them, delivers exactly n*h*accel for a burn of n whole fixed steps from a grid date with one step before it (every tableau with "
+              "nodes in [0,1] and weights summing to 1, every n, h, direction), (n - closing weight)*h from the first date, and within one step of the duration for any "
+              "burn (Euler, RK4); _accel's loop program, regenerated from the AST, adds the thrust once per evaluation whatever the number of bodies; dkep2dv (man.py) "
+              "yields, for every input, the velocity v_final rotated by dangle (law of cosines), realises da to first order (HasDerivAt = 1) and, through to_tnw and the "
+              "inclination / node slices of _cartesian_to_keplerian, di and dOmega to first order at the argument of latitude of dkep2aol (Gauss equations as HasDerivAt "
+              "at every argument of latitude, finite for r, vt > 0, 0 < i < pi). "
+              "Projection, attached frame, registry and step loop are hand-modelled and tied by differential correspondence with the real classes and KeplerNum.")
+LEVEL_NOTE = ("proof (partial): 'a continuous burn delivers its full delta-v' is false of the code for burns not aligned with the steps and for rk4 burns starting on the "
+              "first date (two open findings, kernel-checked witnesses, exact deficit proved); 'converts to and from its parent frame without loss' is false after a name is "
+              "registered again under a farther parent (open finding, witness; into_uses_latest_partial covers registrations under one parent); the burn theorems are for a "
+              "constant (inertial) thrust vector, a QSW/TNW burn's direction follows the state (oracle only); first-order realisation of (di, dOmega) is one-sided in the "
+              "scale of the request (dv_w = |.| >= 0) and exact only where the speed is all transverse (factor v/vt otherwise, stated); "
               "R -> double gap covered by tolerance-bounded correspondence; Lean kernel + propext/Classical.choice/Quot.sound; py2lean translator and harness trusted")
-TECHNIQUE = ("Lean 4 proof (ring/linear_combination identities on 3-vectors, HasDerivAt, induction over step lists with omega, kernel decide witnesses) over "
-             "formulas regenerated from the Python AST; differential correspondence for the hand-modelled parts")
+TECHNIQUE = ("Lean 4 proof (ring/linear_combination identities on 3-vectors, HasDerivAt / HasDerivWithinAt chains through arccos, arctan, sqrt, induction over step lists "
+             "and stage lists with omega/nlinarith, decide on regenerated tableaux and name tables, kernel decide witnesses) over formulas, tables and loop structure "
+             "regenerated from the Python AST; differential correspondence (incl. operation histories on one object) for the hand-modelled parts")
 TRUSTED = [
     "harness/py2lean.py: translate_vec_function (to_qsw, to_tnw -> Generated/Local{F,R}.lean), translate_slice (dkep2dv -> Generated/Dkep{F,R}.lean), "
-    "Tr.expr (dkep2aol, ImpulsiveMan.check, ContinuousMan.check -> Generated/ManWindow.lean); Butcher nodes read from the live KeplerNum.BUTCHER",
-    "lean/templates/Vec3.tpl (numpy cross / norm / matrix-vector products on 3-vectors), lean/templates/Man.tpl (to_local dispatch, projection, attached frame), "
-    "lean/BeyondVerif/Model/ManWin.lean (step loop of KeplerNum._iter/_make_step), lean/BeyondVerif/Model/FrameReg.lean (a frame name means its latest "
-    "registration; conversions leave no trace): hand-written, tied by the correspondence run",
+    "Tr.expr (dkep2aol, ImpulsiveMan.check, ContinuousMan.check -> Generated/ManWindow.lean), TrFn (i, node arguments of _cartesian_to_keplerian -> Generated/KepPlane{F,R}.lean)",
+    "harness/props/C17.py extractors, each refusing shapes it does not know: Butcher nodes as exact float ratios and weights over a common denominator from the live "
+    "KeplerNum.BUTCHER (-> Generated/ManWindow.lean); the loop nesting of KeplerNum._accel and its attraction term matched verbatim (-> Generated/AccelLoopSrc.lean, "
+    "Generated/AccelSrc{F,R}.lean); constructor normalisation, `in (...)` tuples, to_local's if/elif chain, orbit2frame's check (-> Generated/FrameNames.lean)",
+    "lean/templates/Vec3.tpl (numpy cross / norm / matrix-vector products on 3-vectors), lean/templates/Man.tpl (to_local dispatch, projection, attached frame, accelOf, "
+    "kepContAccel), lean/BeyondVerif/Model/ManWin.lean (step loop of KeplerNum._iter/_make_step, divRound = datetime._divide_and_round, thrustUnits), "
+    "lean/BeyondVerif/Model/AccelLoop.lean (interpreter of the loop program), lean/BeyondVerif/Model/FrameName.lean (reading of the name tables), "
+    "lean/BeyondVerif/Model/FrameReg.lean (a frame name means its latest registration, except that a conversion into it reaches the nearest node of that name; "
+    "conversions leave no trace; the store of reference objects): hand-written, tied by the correspondence run",
+    "lean/BeyondVerif/Lemmas/Gauss.lean: the parametrisation of a state by (r, vr, vt, i, Omega, u) (the formulas of _keplerian_to_cartesian's position, hand-written)",
     "numpy / libm double arithmetic vs R: tolerance 1e-9 relative (1e-12 for rotation entries; dv_t of dkep2dv up to 64 ulp of the speed)",
     "Date comparisons are exact at millisecond granularity (Date compares float MJD, resolution ~0.6 us: property C03)",
 ]
 ASSUMPTIONS = [
-    "theorems are over R (frames, dkep2dv) and over Z microseconds (windows); the implementation computes in IEEE doubles and compares dates as float MJD",
+    "theorems are over R (frames, dkep2dv, Gauss) and over Z microseconds (windows, quadrature); the implementation computes in IEEE doubles and compares dates as float MJD",
     "np.linalg.inv(expand(M^T)) in Orientation.convert_to is modelled as expand(M) (justified by qsw/tnw_proper_rotation, tied by correspondence)",
     "steps of a propagation are positive (forward propagation); KeplerNum does not apply impulses on backward steps (check is never true for step < 0)",
     "impulses falling in the same step are applied one after the other in list order, each in the local axes of the state it finds (oracle mirrors this)",
-    "first-order realisation of (di, dOmega) is stated at the argument of latitude given by dkep2aol and at an apsis (flight-path angle 0), as the docstring prescribes",
+    "the burn theorems are for equal steps (fixed-step methods, or an embedded pair whose tolerance is never exceeded) and a thrust vector constant in the frame of the "
+    "propagation (frame=None); stage dates are `step * c` rounded to the microsecond as timedelta.__mul__(float) rounds (tied exactly by correspondence)",
+    "first-order realisation of (di, dOmega) is stated at the argument of latitude given by dkep2aol, one-sidedly in the scale s >= 0 of the request, with the factor v/vt "
+    "(1 at an apsis / on a circular orbit, flight-path angle 0, as the docstring prescribes); 0 < i < pi",
+    "frame names are ASCII (str.upper = Char.toUpper per character; 'ſ'.upper() == 'S' in Python is outside the model)",
+    "a bare StateVector given as reference is used at its own date unless it is expressed in EME2000 and the parent is EME2000 (the library converts it at its own date and "
+    "uses the result at the date of the call: frames / property C02); sessions of the registry model start from registries emptied by the harness (forget_frames)",
 ]
 NOT_COVERED = [
-    "delivered delta-v of a continuous burn through Runge-Kutta stage sampling of the on/off switch (quadrature): oracle only; exact only for burns lasting a "
-    "whole number of fixed steps, otherwise off by up to one step's worth of thrust (known finding C17-continuous-burn-step-sampling)",
-    "realised (di, dOmega) from the out-of-plane impulse (Gauss planetary equations): oracle only (error within 20 x second order on 1e-7..0.3 rad)",
+    "delivered delta-v of a QSW/TNW continuous burn (thrust direction following the state from stage to stage) and of any burn under the adaptive step control: oracle only "
+    "(gravity-free propagations, bound of one step's worth)",
+    "the second-order remainder of the realised (da, di, dOmega): oracle only (error within 20 x second order on 1e-7..0.3 rad)",
     "states interpolated by Ephem (orb.propagate(date), iter with a step other than the propagator's) within 4 steps of an impulse are Lagrange-interpolated "
     "across the velocity jump (measured: 67 % error of the jump one half step after it, 0.5 m/s of a 1 m/s impulse visible one half step before its date); "
     "the theorems and the oracle speak about the integration grid (real steps) only; interpolation is property C09",
+    "an Orbit without propagator given as reference of orbit2frame raises UnknownPropagatorError at the first conversion (hasattr(offset, 'propagate') is true): not in the "
+    "statement; a rotating parent (ITRF) gives other QSW/TNW axes (velocity relative to the rotating frame): the docstring asks for an inertial parent",
+    "frame names the code does not know as local (RSW, LVLH, RTN, any typo) are silently taken as 'the axes of the orbit's frame' by ImpulsiveMan / ContinuousMan "
+    "(other_names_select_identity states it; the property statement speaks of QSW/TNW/inertial only; CCSDS files: property C13)",
 ]
 OPEN = [
-    "whole_steps_full_dv (a burn lasting n fixed steps from a grid date delivers n*h*accel for Euler/RK4) is checked by the oracle (1e-9) and witnessed for one "
-    "instance (whole_step_burn_rk4); not stated as a general theorem",
+    "C17-continuous-burn-step-sampling, C17-burn-from-first-date, C17-reregistered-under-other-parent (open findings with proposed fixes)",
+    "variable steps: for a burn whose start and stop fall on an adaptive grid the delivered thrust time is duration + B1 * (step before the burn - last step of the burn) "
+    "(B1 = weight of the stages dated at the end of a step): derived on paper, not stated in Lean",
 ]
 RULE = ("correspondence: to_local on random elliptic/hyperbolic/retrograde states (radii 1 m .. 3.8e8 m) and an unknown tag; ImpulsiveMan.dv / ContinuousMan.accel "
-        "(accel= and dv=) for tags QSW/TNW/lowercase/None/other; KeplerianImpulsiveMan.dv, dkep2dv, dkep2aol on increments 1e-3 m..2e6 m, 1e-7..0.3 rad; "
-        "orbit2frame sessions (names registered, used at recurring dates, re-registered from another orbit / orientation, used again: binding from the registry "
-        "model, values from frameTo/frameFrom); ImpulsiveMan.check on real Dates over random step lists (ms granularity; on/off grid, outside the span, zero/negative "
+        "(accel= and dv=, every date_pos) for tags QSW/TNW/lowercase/None/other, each maneuver object evaluated on a first state, a second one and the first again; "
+        "KeplerianImpulsiveMan.dv, KeplerianContinuousMan.accel (durations with fractional seconds and above a day), dkep2dv, dkep2aol on increments 1e-3 m..2e6 m, "
+        "1e-7..0.3 rad; orbit2frame sessions (names registered — under the default and under other parents —, used at recurring dates, re-registered from another orbit / "
+        "orientation / parent, used again: binding from the registry model, values from frameTo/frameFrom); world sessions over Orbit / Ephem / StateVector references in "
+        "EME2000, MOD, TOD, TEME, ITRF, cartesian or keplerian, registered by orbit2frame or as_frame (what each conversion reads, the reference object compared bit for "
+        "bit after every operation); ImpulsiveMan.check on real Dates over random step lists (ms granularity; on/off grid, outside the span, zero/negative "
         "steps); impulses applied per step by the real KeplerNum loop (instrumented dv, 4 methods, up to 4 maneuvers); ContinuousMan.check at the stage dates of the "
-        "4 Butcher tableaux — all against the compiled Lean model; non-trivial = non-zero vector / increment; distinct = distinct request. "
+        "4 Butcher tableaux; `step * c` for every node on random steps (1 us .. 1000 s, odd, tiny); delivered delta-v of gravity-free propagations with all four tableaux "
+        "(burns of whole steps incl. from the first date, at stage dates +-1 ms, anywhere) vs the quadrature model; KeplerNum._accel with 0..4 attracting bodies (Earth, Moon, "
+        "Sun, fixed fake bodies, repeated) and 0..3 maneuvers (on, off, impulsive); 29+ frame names through ImpulsiveMan, ContinuousMan, to_local, orbit2frame; inclination / "
+        "node slices vs the keplerian form — all against the compiled Lean model; non-trivial = non-zero vector / increment; distinct = distinct request. "
         "oracle: theorem statements on the real API incl. per-step velocity jumps of KeplerNum vs a maneuver-free step from the same state, delivered delta-v of "
-        "continuous burns in a gravity-free KeplerNum, realised da/di/dOmega vs requested to first order")
+        "continuous burns in a gravity-free KeplerNum (incl. from the first date), thrust part of _accel vs number of bodies, every case variant of QSW/TNW vs the upper-case "
+        "spelling (bitwise), maneuver objects re-used on another state vs fresh ones, arguments in keplerian/spherical form left untouched, date_pos placing start/median/stop, "
+        "references of three classes in five frames unchanged after conversions and repeated conversions bitwise equal, re-registration under other parents, "
+        "|KeplerianContinuousMan.accel| x duration = |dkep2dv|, realised da/di/dOmega vs requested to first order")
 
 LOCAL_PY = os.path.join(core.REPO, "beyond", "frames", "local.py")
 MAN_PY = os.path.join(core.REPO, "beyond", "orbits", "man.py")
@@ -677,11 +713,11 @@ def correspondence(ctx):
         toks, convs, bound = [], [], set()
         for _ in range(ctx.n(10, 14)):
             name = rng.choice(names)
-            if name not in bound or rng.random() < 0.3:
+            if name not in bound or rng.random() < 0.35:
                 oid = rng.randrange(len(orbits))
                 ori = rng.choice(["QSW", "TNW", "QSW", "TNW", None])
                 # the `parent` option: mostly the default, sometimes another inertial frame (number of orientation links to EME2000)
-                pname, pdist = rng.choice([("EME2000", 0)] * 5 + [("MOD", 1), ("TOD", 2), ("TEME", 3)])
+                pname, pdist = rng.choice([("EME2000", 0)] * 3 + [("MOD", 1), ("TOD", 2), ("TEME", 3)])
                 if pdist:
                     from beyond.frames.frames import get_frame
                     orbit2frame(name, orbits[oid][1], orientation=ori, parent=get_frame(pname), exists_warning=False)
